@@ -28,8 +28,8 @@ def gen_case(ctx, rng, i, tag='random'):
         # chosen delivery point until the WorkerTerminatedError is pending on it, so that it lands exactly there.
         fault = {'kind': 'terminate' if stop.startswith('terminate') else 'gate', 'role': 'child-main:ProcessWorker._run', 'any_thread': True,
                  'qualname': rng.choice(['RemoteWorker.__setstate__', 'RemoteWorker.__setstate__', 'RemoteServer.run', 'recv_msg', 'send_msg',
-                                         'remote_loads', 'PipeEndpoint.recv', 'Pipe.__init__', 'set_keepalive', '_ConnectionBase.send',
-                                         '_ConnectionBase.recv', 'PipeEndpoint.send', 'PipeEndpoint.close']),
+                                         'remote_loads', 'PipeEndpoint.recv', 'Pipe.__init__', 'set_keepalive', 'Connection._send_bytes',
+                                         'Connection._recv_bytes', 'PipeEndpoint.send', 'PipeEndpoint.close']),
                  'occ': rng.randrange(1, 12)}
     return {'kind': 'server', 'children': children, 'stop': stop, 'fault': fault, 'during_start': during_start,
             'stop_timeout': rng.choice([0, 0.01, 0.05, 0.3]), 'consumers': rng.random() < 0.5,
